@@ -85,10 +85,10 @@ class Harness:
   def expected(self, case, pred, db, rules=None):
     tables = {t: (SCHEMAS[case.schema][t], [tuple(r) for r in rows]) for t, rows in db.items()}
     for t, cols in SCHEMAS[case.schema].items(): tables.setdefault(t, (cols, []))
-    ev = refsem.Evaluator(rules if rules is not None else case.program.rules(), tables, depth=case.depth, depths=case.depths)
+    ev = refsem.Evaluator(rules if rules is not None else case.program.rules(), tables, depth=case.depth, depths=case.depths, ol=getattr(case, 'ol', None))
     return ev.rows(pred)
 
-  def run_case(self, case, classify=None, ordered=False, prepared_rules=None, table_form=True):
+  def run_case(self, case, classify=None, ordered=False, prepared_rules=None, table_form=True, prefilter=None):
     """classify(case, pred, db, exp, got_outcome, diff) -> signature suffix or None(=generic)."""
     self.stats['programs'] += 1
     text = case.text()
@@ -102,6 +102,7 @@ class Harness:
           self.add_viol('compile-%s/%s' % (script[1], case.family), 'valid program not compiled: %s %s | %s' % (script[1], script[2][:200], oneline(text)), case, dict(pred=pred))
           continue
         for d in case.dbs:
+          if prefilter and not prefilter(case, d): continue
           try:
             exp = self.expected(case, pred, d, prepared_rules)
           except refsem.Unsupported as e:
@@ -122,8 +123,10 @@ class Harness:
             self.add_viol(sig, '%s on %s: %s | %s' % (pred, d, diff, oneline(text)), case, dict(pred=pred, db=d))
             if not specific: break    # a classified (possibly known) phenomenon must not mask a different one on a later database
     for d in (case.fact_dbs or []):
+      if prefilter and not prefilter(case, d): continue
       prog2 = lang.Program(facts_for(d, case.schema) + case.program.stmts, case.program.engine, case.program.type_checking)
-      case2 = Case(case.family, prog2, case.preds, case.schema, depth=case.depth, depths=case.depths)
+      case2 = Case(case.family, prog2, case.preds, case.schema, depth=case.depth, depths=case.depths, info=case.info)
+      case2.ol = getattr(case, 'ol', None)
       comp = impl.Compiled(prog2.text()); self.stats['compiles'] += 1
       db = self.conn(case.schema); db.load({})
       for pred in case.preds:
